@@ -5,6 +5,7 @@ Model: `Model/Acl.lean` (`compileAcl`, `findMatches`, `selectMatch`, `applyAcl`)
 Property theorems only; proofs of the lemmas are in `Lemmas/Acl.lean`.
 -/
 import AnnetModel.Lemmas.Acl
+import AnnetModel.Lemmas.AclMerge
 
 /-! OBLIGATIONS
 Annet.Acl.C06_subtree_ordered
@@ -15,6 +16,8 @@ Annet.Acl.C06_global_tilde_covers_everything
 Annet.Acl.C06_merge_monotone_false_global
 Annet.Acl.C06_merge_monotone_false_reverse_cant_delete
 Annet.Acl.C06_merge_monotone_false_reverse_shadows
+Annet.Acl.C06_merge_monotone_false_same_row_global
+Annet.Acl.C06_merge_monotone_partial
 -/
 
 namespace Annet.Acl
@@ -105,6 +108,31 @@ theorem C06_merge_monotone_false_reverse_shadows :
     ["no address 10x", "no description port description"] ∈ okPaths (applyAcl v false false (compileAcl [A]) [] t) ∧
     ["no address 10x", "no description port description"] ∉ okPaths (applyAcl v false false (compileAcl [A ++ B]) [] t) := by
   decide
+
+/-- F06d: one generator declares a rule row `%global`, another declares the SAME row as a local rule with children:
+the merged rule is global and A's children rules are gone. -/
+theorem C06_merge_monotone_false_same_row_global :
+    let A : List RawRule := [.mk "interface" false false [false] 0 ["g0"] [.mk "bgp" false false [false] 0 ["g0"] []]]
+    let B : List RawRule := [.mk "interface" false true [false] 0 ["g1"] [], .mk "interface interface" false false [false] 0 ["g2"] []]
+    let t : Cfg := .mk [("interface interface", .mk [("bgp", .mk [])])]
+    let v : Vendor := { reverse := "undo" }
+    ["interface interface", "bgp"] ∈ okPaths (applyAcl v false false (compileAcl [A]) [] t) ∧
+    ["interface interface", "bgp"] ∉ okPaths (applyAcl v false false (compileAcl [A ++ B]) [] t) := by
+  decide
+
+/-- The third clause, positive part: without `%global` / ignore rules and without negated-form matching (the negation word is
+a plain word; no rule row and no configuration row — as the matcher reads it: case-insensitively, any blank after the word,
+Juniper `inactive:` stripped — begins with it), everything ACL `A` passes alone is passed by the merged ACL `A ++ B`, as an
+order-preserving sub-tree, at every depth.  Each excluded feature breaks the clause: F06a–d above, and the five
+kernel-checked counterexamples to weaker hypotheses in `Lemmas/AclMerge.lean` (`MergeDraft`). -/
+theorem C06_merge_monotone_partial (v : Vendor) (A B : List RawRule) (t ca cab : Cfg)
+    (hw : plainWord v.reverse.toList = true)
+    (hA : PlainRawL A = true) (hB : PlainRawL B = true)
+    (hnA : NoNegRuleL v A = true) (hnB : NoNegRuleL v B = true) (ht : NoNegRow v t = true)
+    (h1 : applyAcl v false false (compileAcl [A]) [] t = .ok ca)
+    (h2 : applyAcl v false false (compileAcl [A ++ B]) [] t = .ok cab) :
+    Sub ca cab :=
+  merge_monotone_partial v A B t ca cab hw hA hB hnA hnB ht h1 h2
 
 /-- Non-vacuity: a nested ACL with a wildcard block, a global rule and an uncovered row. -/
 example :
